@@ -1,0 +1,99 @@
+// SPDX-FileCopyrightText: The go-mail Authors
+//
+// SPDX-License-Identifier: MIT
+
+//go:build verif
+
+package mail
+
+import (
+	"bytes"
+	"io"
+)
+
+// This file is only compiled with the build tag "verif". It exports thin wrappers around
+// unexported functions, so that an external verification harness can run them at high
+// volume and compare them with a formal model. It does not change any behaviour.
+
+// VerifWriteHeader runs msgWriter.writeHeader into a buffer and returns the bytes written
+// and the line count it reports.
+func VerifWriteHeader(key string, values ...string) ([]byte, int) {
+	buf := &bytes.Buffer{}
+	mw := &msgWriter{writer: buf}
+	lines := mw.writeHeader(Header(key), values...)
+	return buf.Bytes(), lines
+}
+
+// VerifLineBreaker feeds the chunks into a base64LineBreaker one Write call per chunk,
+// closes it and returns the output.
+func VerifLineBreaker(chunks [][]byte) ([]byte, error) {
+	buf := &bytes.Buffer{}
+	lb := &base64LineBreaker{out: buf}
+	for _, chunk := range chunks {
+		if _, err := lb.Write(chunk); err != nil {
+			return buf.Bytes(), err
+		}
+	}
+	err := lb.Close()
+	return buf.Bytes(), err
+}
+
+// VerifWriteBody runs msgWriter.writeBody at depth 0 with a producer that writes the given
+// chunks one Write call per chunk.
+func VerifWriteBody(encoding Encoding, chunks [][]byte) ([]byte, int64, error) {
+	buf := &bytes.Buffer{}
+	mw := &msgWriter{writer: buf}
+	producer := func(w io.Writer) (int64, error) {
+		var total int64
+		for _, chunk := range chunks {
+			n, err := w.Write(chunk)
+			total += int64(n)
+			if err != nil {
+				return total, err
+			}
+		}
+		return total, nil
+	}
+	mw.writeBody(producer, encoding)
+	return buf.Bytes(), mw.bytesWritten, mw.err
+}
+
+// VerifSanitizeFilename exposes sanitizeFilename.
+func VerifSanitizeFilename(name string) string { return sanitizeFilename(name) }
+
+// VerifEncodeString exposes Msg.encodeString.
+func VerifEncodeString(m *Msg, value string) string { return m.encodeString(value) }
+
+// VerifNesting exposes the three multipart layer decisions.
+func VerifNesting(m *Msg) (mixed, related, alt bool) {
+	return m.hasMixed(), m.hasRelated(), m.hasAlt()
+}
+
+// VerifBoundaries returns the cached multipart boundaries of the Msg (mixed, related, alternative).
+func VerifBoundaries(m *Msg) (mixed, related, alt string) {
+	return m.multiPartBoundary[MIMEMixed], m.multiPartBoundary[MIMERelated], m.multiPartBoundary[MIMEAlternative]
+}
+
+// VerifIsTempError, VerifErrorCode and VerifEnhancedStatusCode expose the SendError classifiers.
+func VerifIsTempError(err error) bool { return isTempError(err) }
+
+// VerifErrorCode exposes errorCode.
+func VerifErrorCode(err error) int { return errorCode(err) }
+
+// VerifEnhancedStatusCode exposes enhancedStatusCode.
+func VerifEnhancedStatusCode(err error, supported bool) string {
+	return enhancedStatusCode(err, supported)
+}
+
+// VerifParseMultiPartHeader exposes parseMultiPartHeader.
+func VerifParseMultiPartHeader(value string) (string, map[string]string) {
+	return parseMultiPartHeader(value)
+}
+
+// VerifAuthTypeAutoDiscover exposes Client.authTypeAutoDiscover.
+func VerifAuthTypeAutoDiscover(c *Client, supported string, isEnc bool) (SMTPAuthType, error) {
+	return c.authTypeAutoDiscover(supported, isEnc)
+}
+
+// VerifEnvelopeAddress exposes envelopeAddress.
+func VerifEnvelopeAddress(addr string) string { return envelopeAddress(addr) }
